@@ -108,6 +108,22 @@ def canon_model_val(v):
     return v
 
 
+def close(a, b, tol=Fraction(1, 10 ** 9)):
+    """canonical JSON values equal up to float rounding of numbers (the model computes in exact rationals)"""
+    if isinstance(a, dict) and isinstance(b, dict):
+        if set(a) != set(b):
+            return False
+        if "n" in a:
+            x, y = Fraction(*a["n"]), Fraction(*b["n"])
+            return x == y or abs(x - y) <= tol * max(abs(x), abs(y))
+        return all(close(a[k], b[k], tol) for k in a)
+    if isinstance(a, list) and isinstance(b, list):
+        return len(a) == len(b) and all(close(x, y, tol) for x, y in zip(a, b))
+    if isinstance(a, Fraction) and isinstance(b, Fraction):
+        return a == b or abs(a - b) <= tol * max(abs(a), abs(b))
+    return a == b
+
+
 def mk_rew(r):
     """JSON reward -> python object of the real classes (or list / plain function)"""
     from coba.primitives import BinaryReward, DiscreteReward, HammingReward, L1Reward
@@ -383,42 +399,79 @@ def step_label(st):
     return f
 
 
-def is_lossy(st, inp):
-    """may this step legitimately merge distinct actions? (noise on actions; hashing; lookup with fewer slots than keys)"""
-    f = st["f"]
-    if f == "noise" and st.get("a"):
-        return True
-    if f == "densify" and st["a"]:
-        if st["m"] == "hashing":
-            return True
-        keys = set()
-        for it in inp:
-            for grp in ([it.get("context")] if st["c"] else []) + list(it.get("actions") or []) + ([it["action"]] if "action" in it else []):
-                if isinstance(grp, dict):
-                    keys.update(grp.keys())
-        return len(keys) > st["n"]
+def _action_dicts(inp, with_context=False):
+    for it in inp:
+        for grp in ([it.get("context")] if with_context else []) + list(it.get("actions") or []) + ([it["action"]] if "action" in it else []):
+            if isinstance(grp, dict):
+                yield grp
+
+
+def name_clash(inp):
+    """a sparse action already has a key that the filter would generate (`<key>_<i>`)"""
+    for d in _action_dicts(inp):
+        keys = [str(k) for k in d]
+        for k1 in keys:
+            for k2 in keys:
+                if k2 != k1 and k2.startswith(k1 + "_") and k2[len(k1) + 1:].isdigit():
+                    return True
     return False
 
 
+def is_lossy(st, inp):
+    """may this step merge distinct actions by design?  Noise on actions; hashing; lookup with fewer slots than keys;
+    densifying a stored zero (equal to an absent key afterwards); generated feature names that already exist"""
+    f = st["f"]
+    if f == "noise" and st.get("a"):
+        return 1
+    if f == "densify" and st["a"]:
+        if any(isinstance(v, (int, float)) and v == 0 for d in _action_dicts(inp) for v in d.values()):
+            return 1
+        if st["m"] == "hashing":
+            # two keys of one action hashed to one slot: the later value overwrites the earlier one (2 = collision happened)
+            for d in _action_dicts(inp):
+                idx = [zlib.crc32(str(k).encode("ascii", "replace")) % st["n"] for k in d]
+                if len(set(idx)) < len(idx):
+                    return 2
+            return 1
+        keys = set()
+        for d in _action_dicts(inp, st["c"]):
+            keys.update(d.keys())
+        return 2 if len(keys) > st["n"] else 0
+    if f == "flatten" and any(isinstance(v, (int, float)) and v == 0 for d in _action_dicts(inp) for v in d.values()):
+        return 1          # the sparse branch of Flatten drops stored zeros: {"y":0,…} and {…} become the same action
+    if f in ("flatten", "finalize") or (f == "repr" and st.get("ca") == "onehot"):
+        return 1 if name_clash(inp) else 0
+    return 0
+
+
 def compare_step(label, before, after, lossy, fails, tags, where, st=None):
-    """(B) for one step (or the whole pipeline): alignment of `after` with `before`, member by member"""
+    """(B) for one step (or the whole pipeline): alignment of `after` with `before`, member by member.
+    returns {"ok","excused","skipped","collapsed"}"""
+    res = {"ok": True, "excused": False, "skipped": False, "collapsed": False}
+    if lossy == 2:
+        tags.append("excused:collision:" + label.split("(")[0])
+        res["excused"] = True
+        return res
     if len(before) != len(after):
         fails.append(F("B", "%s: %s turned %d interactions into %d" % (where, label, len(before), len(after)), "%s:stream-length" % label))
-        return False
-    ok = True
+        res["ok"] = False
+        return res
     for t, (o, n) in enumerate(zip(before, after)):
         if "actions" in o:
             if not pairwise_distinct(o["actions"]):
                 tags.append("skip:input-actions-not-distinct")
+                res["skipped"] = True
                 continue
             if "actions" not in n or len(n["actions"]) != len(o["actions"]):
                 fails.append(F("B", "%s: interaction %d: %s changed the number of actions (%s -> %s)" % (where, t, label, len(o["actions"]), len(n.get("actions", []))), "%s:n-actions" % label))
-                ok = False
+                res["ok"] = False
                 continue
-            if lossy and not pairwise_distinct(n["actions"]):
-                tags.append("excused:collision:" + label.split("(")[0])
-                ok = False      # later steps are outside the quantifier for this member; not a failure
-                continue
+            if not pairwise_distinct(n["actions"]):
+                if lossy:
+                    tags.append("excused:collision:" + label.split("(")[0])
+                    res["excused"] = True      # later steps are outside the quantifier for this member; not a failure
+                    continue
+                res["collapsed"] = True
             for key in ("rewards", "feedbacks"):
                 if key in o:
                     ob, oa = obs_target(o, key), obs_target(n, key)
@@ -433,7 +486,7 @@ def compare_step(label, before, after, lossy, fails, tags, where, st=None):
                                        % (where, t, label, key, json.dumps(obs_json(oa)), json.dumps(obs_json(ob)), json.dumps([enc(a) for a in o["actions"]])[:300],
                                           json.dumps([enc(a) for a in n["actions"]])[:300]),
                                        "%s:%s:%s" % (label, key, how)))
-                        ok = False
+                        res["ok"] = False
             if "action" in o:
                 ib, ia = logged_index(o), logged_index(n)
                 if isinstance(ib, int) and ia != ib:
@@ -445,13 +498,13 @@ def compare_step(label, before, after, lossy, fails, tags, where, st=None):
                     fails.append(F("B", "%s: interaction %d: after %s the logged action %s is %s of the actions %s (was member %d)"
                                    % (where, t, label, json.dumps(enc(n.get("action")))[:200], ("not a member" if ia == "NOT-MEMBER" else "member %s" % ia),
                                       json.dumps([enc(a) for a in n["actions"]])[:300], ib), "%s:logged-action:%s" % (lab, how)))
-                    ok = False
+                    res["ok"] = False
         if "action" in o:
             for key in ("reward", "probability"):
                 if key in o and (key not in n or not same_num(o[key], n[key])):
                     fails.append(F("B", "%s: interaction %d: %s changed the logged %s from %r to %r" % (where, t, label, key, o[key], n.get(key)), "%s:logged-%s-changed" % (label, key)))
-                    ok = False
-    return ok
+                    res["ok"] = False
+    return res
 
 
 def enc_any(it):
@@ -478,18 +531,22 @@ def interaction_json(it):
 
 # ------------------------------------------------------------------ stepwise run (blame + oracles for the model)
 def run_stepwise(case):
-    """apply the chain one filter at a time, materialising in between. returns list of (step, members_before, members_after)"""
+    """apply the chain one filter at a time, materialising in between.
+    returns (list of (step, members_before, members_after), name of the exception that stopped it or None)"""
     chain = effective_chain(case)
     bstates, _ = batch_states(chain)
     items = [mk_inter(it) for it in case["stream"]]
     res = []
     for st, b in zip(chain, bstates):
         before, _ = members(items)
-        out = list(mk_filter(st, b).filter(items))
+        try:
+            out = list(mk_filter(st, b).filter(items))
+        except Exception as e:
+            return res, type(e).__name__
         after, _ = members(out)
         res.append((st, before, after))
         items = out
-    return res
+    return res, None
 
 
 def noise_oracle(st, before, after):
@@ -565,7 +622,7 @@ def detect_cfg():
         try:
             with warnings.catch_warnings():
                 warnings.simplefilter("ignore")
-                steps = run_stepwise(case)
+                steps, _ = run_stepwise(case)
             fails = []
             for st, before, after in steps:
                 compare_step(step_label(st), before, after, False, fails, [], "witness", st)
@@ -633,7 +690,7 @@ class Gen:
             if r < 40:
                 return ("cat", self.levels())
             if r < 72:
-                return ("dense", self.r.choice(["t", "t", "l"]), [self.ftype() for _ in range(self.r.randint(1, 4))])
+                return self.dense_schema()
             return self.sparse_schema()
         if r < 14:
             return ("num",)
@@ -642,15 +699,30 @@ class Gen:
         if r < 40:
             return ("cat", self.levels() if self.r.chance(0.3) else self.r.shuffle(LEVELS)[:self.r.randint(2, 5)])
         if r < 70:
-            return ("dense", self.r.choice(["t", "t", "l"]), [self.ftype() for _ in range(self.r.randint(1, 4))])
+            return self.dense_schema()
         if r < 93:
             return self.sparse_schema()
         pool = [V_n(i) for i in range(1, 6)] if self.r.chance(0.5) else [{"s": s} for s in STRS[:5]]
         return ("multi", self.r.choice(["l", "t"]), pool)
 
+    def dense_schema(self):
+        fts = [self.ftype() for _ in range(self.r.randint(1, 4))]
+        # rows with categoricals both at the top level and inside nested rows make EncodeCatRows raise (TypeError): keep rare
+        top = any(t[0] == "c" for t in fts)
+        nested = any(t[0] == "nest" and any(u[0] == "c" for u in t[2]) for t in fts)
+        if top and nested and not self.r.chance(0.1):
+            fts = [(t if t[0] != "nest" else ("nest", t[1], [u if u[0] != "c" else ("s",) for u in t[2]])) for t in fts]
+        return ("dense", self.r.choice(["t", "t", "l"]), fts)
+
     def sparse_schema(self):
         keys = self.r.shuffle(KEYS)[:self.r.randint(1, 4)]
-        return ("sparse", [(k, self.ftype(True, 30)) for k in keys], self.r.wchoice([(85, "all"), (15, "some")]))
+        ents = []
+        for k in keys:
+            # EncodeCatRows iterates a str key character by character: categorical features under multi-character keys
+            # make Repr raise (KeyError); keep them rare so that most cases reach the re-keying code
+            ft = self.ftype(True, 30 if len(k) == 1 or self.r.chance(0.08) else 0)
+            ents.append((k, ft))
+        return ("sparse", ents, self.r.wchoice([(90, "all"), (10, "some")]))
 
     def value(self, sc):
         k = sc[0]
@@ -669,7 +741,7 @@ class Gen:
             for key, ft in sc[1]:
                 must = ft[0] in ("c", "nest") and sc[2] == "all"
                 if must or self.r.chance(0.7):
-                    ents.append([key, self.fval(ft, zero_ok=self.r.chance(0.3))])
+                    ents.append([key, self.fval(ft, zero_ok=self.r.chance(0.06))])
             if not ents and self.r.chance(0.9):
                 key, ft = sc[1][0]
                 ents.append([key, self.fval(ft, zero_ok=False)])
@@ -956,29 +1028,29 @@ class C10(Property):
             tags.append("raises:" + impl_err)
 
         # stepwise run: per-step (B) with blame, oracles for the model
-        steps, step_err = [], None
-        try:
-            steps = run_stepwise(case)
-        except Exception as e:
-            step_err = type(e).__name__
+        steps, step_err = run_stepwise(case)
         changed = False
-        chain_ok = True
-        lossy_any = False
+        stop = None          # "fail" | "excused": why the per-step checks ended
+        collapsed_at = None
         for st, before, after in steps:
             label = step_label(st)
-            lossy = is_lossy(st, before)
-            lossy_any = lossy_any or lossy
-            if not chain_ok:
-                break
-            chain_ok = compare_step(label, before, after, lossy, fails, tags, "step", st) and chain_ok
             if any(json.dumps([enc(a) for a in o.get("actions", [])]) != json.dumps([enc(a) for a in n.get("actions", [])]) for o, n in zip(before, after)):
                 changed = True
                 tags.append("changed-by:" + st["f"])
-        step_b = bool([f for f in fails if f["kind"] == "B"])
-        # whole pipeline against the original (only if the steps gave no explanation already)
-        if final is not None and not step_b and chain_ok:
-            compare_step("pipeline", original, final, lossy_any, fails, tags, "pipeline")
-        if final is not None and sizes is not None:
+            if stop:
+                continue
+            r = compare_step(label, before, after, is_lossy(st, before), fails, tags, "step", st)
+            if not r["ok"]:
+                stop = "fail"
+            elif r["excused"]:
+                stop = "excused"
+            elif r["collapsed"] and collapsed_at is None:
+                collapsed_at = label
+        # the whole (lazily composed) pipeline against the original, unless a step already explains or excuses it
+        if final is not None and not stop:
+            before_n = len(fails)
+            compare_step("pipeline" if not collapsed_at else "collapse@" + collapsed_at, original, final, False, fails, tags, "pipeline")
+        if final is not None and sizes is not None and not stop and all(pairwise_distinct(m["actions"]) for m in final if "actions" in m):
             self.check_batch_call(out, original, fails, tags)
 
         nontrivial = changed and final is not None and any(
@@ -1074,7 +1146,7 @@ class C10(Property):
                     # the model computes in exact rationals; Python's int/int division (HammingReward) is the correctly rounded double
                     va = ["ERR" if isinstance(x, str) else Fraction(*x) for x in va]
                     vb = ["ERR" if isinstance(x, str) else Fraction(x[0] / x[1]) for x in vb]
-                if va != vb:
+                if not close(va, vb):
                     fails.append(F("A", "interaction %d, %s: implementation %s, model %s" % (t, key, json.dumps(va, default=str)[:300], json.dumps(vb, default=str)[:300]), "A:" + key))
         return model
 
